@@ -99,7 +99,12 @@ def build_call(case):
     if mode == "lines":
         data = {"y": var(cells + 1, case["ynull"])}
         if case["xvar"]:
-            data["xv"] = var(cells + 1000, case["xnull"])
+            # the x variable has only the dims case["xdims"] (all of y's, only the line dim, or the line dim and
+            # one more); its value at a cell is 1000 + the cell with the dims it does not have at index 1
+            xd = sorted(case.get("xdims") or range(1, n + 1))
+            full = var(cells + 1000, case["xnull"])[1]
+            take = tuple(slice(None) if d in xd else 0 for d in range(1, n + 1))
+            data["xv"] = ([dim_name(d) for d in xd], np.array(full[take], copy=True))
             args = ("xv", "y")
             kw["xlink"] = dims[-1]
         else:
@@ -115,11 +120,12 @@ def build_call(case):
     # with permuted dims.  Nothing the property talks about depends on the storage layout.
     ds = xr.Dataset(coords=coords)
     for k, (name, (dd, a)) in enumerate(data.items()):
-        perm = storage_perm(case, n, k)
+        m = len(dd)
+        perm = storage_perm(case, m, k)
         ds[name] = (tuple(dd[i] for i in perm), np.ascontiguousarray(np.transpose(a, perm)))
-        if perm != tuple(range(n)):
-            assert ds[name].dims != tuple(ds.sizes) and ds[name].shape == tuple(sizes[i] for i in perm)
-        assert np.array_equal(ds[name].transpose(*dims).values, a, equal_nan=True)
+        if perm != tuple(range(m)):
+            assert ds[name].dims != tuple(dd) and ds[name].shape == tuple(a.shape[i] for i in perm)
+        assert np.array_equal(ds[name].transpose(*dd).values, a, equal_nan=True)
     assert tuple(ds.sizes) == tuple(dims), (tuple(ds.sizes), dims)
 
     for p, t in zip(PROPS, case["pm"]):
@@ -150,7 +156,7 @@ def build_call(case):
             kw["bins"] = 4
         elif b == "nN":
             kw["bins"] = ncells
-        elif b in ("e1", "e3", "eu"):
+        elif b in ("e1", "e3", "eu", "en"):
             kw["bins"] = [(hb["e0"] + k * hb["w"] + hb.get("q", 0) * k * (k + 1)) / hb["den"] for k in range(hb["nb"] + 1)]
         kw["bins_density"] = bool(case["dens"])
         if case["pal"]:
